@@ -60,3 +60,50 @@ def check_pow(hash: Bytes, nBits: Int):
     option(chains=True, shards=8, callable=True)
     unfold(pow_rule(le_int(hash), nBits, pow_limit(CHAIN)))
     raises(CheckProofOfWorkError, when=not pow_rule(le_int(hash), nBits, pow_limit(CHAIN)))
+
+
+# ---- bounded: the verdict depends on the chain selected NOW, not on what was checked under another chain before ---
+@contract('bitcoin.core:CheckProofOfWork', name='check_pow_after_other_chain', prop=P)
+def check_pow_after_other_chain(hash: Bytes, nBits: Int):
+    """BOUNDED: after compact values at and around another chain's limit were checked (accepted or refused) under that
+    other chain, the check under the selected chain still accepts exactly when the consensus rule for the selected
+    chain does"""
+    option(bounded=200, chains=True)
+    requires(len(hash) == 32 and 0 <= nBits and nBits < 2**32)
+    raises(CheckProofOfWorkError, when=not pow_accepts(le_int(hash), nBits, pow_limit(CHAIN)))
+
+
+from pyvc import replay as _replay
+
+_EDGE_BITS = [0x207fffff, 0x1e0377ae, 0x1d00ffff, 0x1f00ffff, 0x2100ffff, 0x20008000, 0x1e0377af, 0x1d010000, 0x1c7fffff,
+              0x21008000, 0x1e00ffff, 0x03000001, 0x00000000, 0x01800000]
+
+
+def _build_c17_hist(inputs, chain):
+    import bitcoin
+    from bitcoin.core import CheckProofOfWork
+    for other in inputs['others']:
+        bitcoin.SelectParams(other)
+        for b in inputs['prime']:
+            for h in (bytes(32), b'\x01' + bytes(31), bytes(inputs['hash']['__bytes__'])):
+                try:
+                    CheckProofOfWork(h, b)
+                except Exception:
+                    pass
+    bitcoin.SelectParams(chain)
+    return {'hash': bytes(inputs['hash']['__bytes__']), 'nBits': inputs['nBits']}
+
+
+_replay.BUILD_HOOKS['c17_hist'] = _build_c17_hist
+
+
+def _gen_pow_hist(rng):
+    nb = rng.choice(_EDGE_BITS + [rng.choice(_EDGE_BITS)] * 3)
+    h = rng.choice([bytes(32), b'\x01' + bytes(31), bytes(31) + b'\x7f', bytes(rng.getrandbits(8) for _ in range(20)) + bytes(12),
+                    bytes(rng.getrandbits(8) for _ in range(28)) + bytes(4)])
+    return {'__build__': 'c17_hist', 'hash': {'__bytes__': list(h), 'cls': 'builtins:bytes'}, 'nBits': nb,
+            'others': rng.sample(['mainnet', 'testnet', 'signet', 'regtest'], rng.choice([1, 2, 3])),
+            'prime': [nb] + rng.sample(_EDGE_BITS, 3)}
+
+
+_replay.GENERATORS['check_pow_after_other_chain'] = _gen_pow_hist
